@@ -1,5 +1,6 @@
 import JediModel.Proto
 import JediModel.Model.Call
+import JediModel.Model.DocLit
 open Lean Proto JediModel.Call
 
 def optChars (j : Json) (k : String) : Option Str :=
@@ -145,6 +146,23 @@ def handle (j : Json) : Json :=
     jopt (fun (s' : Sig) => jarr (s'.params.map fun n => jarr [jchars n.name, jnat n.kind.toNat])) (pyBound s)
   | "doc" =>
     jchars (docAssemble (joinLines ((strs j "sigs").map String.toList)) (chars j "doc"))
+  | "doclit" =>
+    -- `_clean_docstring_literal(value)` given the type `ast.literal_eval(value)` yields
+    let ev := match str j "ev" with
+      | "str" => JediModel.DocLit.Evald.str
+      | "bytes" => JediModel.DocLit.Evald.bytes
+      | _ => JediModel.DocLit.Evald.notLiteral
+    match JediModel.DocLit.jediCleanDocstringLiteral (chars j "value") ev with
+    | .cleandoc => jstr "cleandoc"
+    | .emptyDoc => jstr "empty"
+    | .raises => jstr "raises"
+  | "pyprefix" =>
+    -- Python side: is this prefix legal, is a literal with it a docstring, what does literal_eval yield
+    let p := chars j "prefix"
+    jobj [("legal", jbool (JediModel.DocLit.legalPrefixes.contains p)),
+          ("docstring", jbool (JediModel.DocLit.pyIsDocstring p)),
+          ("evald", jstr (match JediModel.DocLit.pyEvald p with
+                          | .str => "str" | .bytes => "bytes" | .notLiteral => "notLiteral"))]
   | op => jobj [("error", jstr ("unknown op " ++ op))]
 
 def main : IO Unit := Proto.run handle
